@@ -475,6 +475,38 @@ class RectTranspose(FnContract):
             P.check(qn + "/frame:original-untouched", tgt is not st.roi and f['xmin'] is xmin and f['xmax'] is xmax and f['ymin'] is ymin and f['ymax'] is ymax)
 
 
+
+class RotateBy(FnContract):
+    """Roi.rotate_by is inherited by every region that can be rotated"""
+    property_ids = ('C08',)
+    target = ROI + ":Roi.rotate_by"
+    title = "rotates to exactly (current angle + dtheta) - 0 when the region has no angle yet - through one call of rotate_to, extra arguments passed on"
+
+    def configs(self, tier):
+        return [dict(has_theta=True), dict(has_theta=False)]
+
+    def inputs(self, cfg, P):
+        theta, dtheta = z3.Reals('theta dtheta')
+        calls = []
+        roi = PObj('Roi', fields=dict(theta=theta) if cfg['has_theta'] else {})
+        roi.methods['rotate_to'] = lambda I, self_, *a, **k: calls.append((a, k))
+        st = St(roi=roi, theta=theta if cfg['has_theta'] else z3.RealVal(0), dtheta=dtheta, calls=calls, center=PObj('center'))
+        return Inputs([roi, dtheta], dict(center=st.center), st=st)
+
+    def globals_(self, cfg, st):
+        return {'numpy.pi': z3.RealVal('3.141592653589793')}
+
+    def finish(self, cfg, st, P, outcome):
+        qn = "Roi.rotate_by[%s]" % self.cfg_name(cfg)
+        P.check(qn + "/does-not-raise", outcome[0] == 'return')
+        ok = len(st.calls) == 1 and len(st.calls[0][0]) == 1
+        P.check(qn + "/ensures:one-rotate_to-call-with-one-angle", ok)
+        if ok:
+            a = st.calls[0][0][0]
+            P.check(qn + "/ensures:target-angle-is-current-angle-plus-dtheta", (a == st.theta + st.dtheta) if is_z3(a) else False)
+            P.check(qn + "/ensures:extra-arguments-passed-on", st.calls[0][1].get('center') is st.center and set(st.calls[0][1]) == {'center'})
+
+
 CONTRACTS = [RectContains(), RectToPolygon(), RectMoveTo(), RectTranspose(), CircleContains(), AnnulusContains(), EllipseContains(),
              RangeContains(), RangeMoveTo(), _mv('CircularROI', ('radius',)), _mv('CircularAnnulusROI', ('inner_radius', 'outer_radius')),
-             _mv('EllipticalROI', ('radius_x', 'radius_y', 'theta'))]
+             _mv('EllipticalROI', ('radius_x', 'radius_y', 'theta')), RotateBy()]
